@@ -12,9 +12,17 @@ func (m *Machine) needConcreteStr(s Str, what string) {
 	}
 }
 
+// opaqueBool: the outcome of comparing text produced by a formatting stub is not
+// modelled: an arbitrary boolean (assertions that depend on it cannot be replayed and
+// are reported as inconclusive, never as violations).
+func (m *Machine) opaqueBool() *Term {
+	return m.ctx.Var(m.nondetName("opaque.compare"), SBool)
+}
+
 func (m *Machine) strEq(a, b Str) *Term {
-	m.needConcreteStr(a, "==")
-	m.needConcreteStr(b, "==")
+	if a.Opaque || b.Opaque {
+		return m.opaqueBool()
+	}
 	if len(a.R) != len(b.R) {
 		return falseT
 	}
@@ -31,8 +39,9 @@ func (m *Machine) strEq(a, b Str) *Term {
 
 // strLess: lexicographic order by code point (== byte order for valid UTF-8).
 func (m *Machine) strLess(a, b Str, orEq bool) *Term {
-	m.needConcreteStr(a, "<")
-	m.needConcreteStr(b, "<")
+	if a.Opaque || b.Opaque {
+		return m.opaqueBool()
+	}
 	c := m.ctx
 	n := len(a.R)
 	if len(b.R) < n {
@@ -194,30 +203,74 @@ var upperSegs, lowerSegs []caseSeg
 
 func buildCaseSegs(f func(rune) rune) []caseSeg {
 	var segs []caseSeg
-	var cur *caseSeg
-	for r := rune(0x80); r <= 0x10FFFF; r++ {
+	delta := func(r rune) rune {
 		if r >= 0xD800 && r <= 0xDFFF {
-			cur = nil
-			continue
+			return 0
 		}
-		d := f(r) - r
+		return f(r) - r
+	}
+	r := rune(0x80)
+	for r <= 0x10FFFF {
+		d := delta(r)
 		if d == 0 {
-			cur = nil
+			r++
 			continue
 		}
-		if cur != nil && cur.hi == r-1 && cur.delta == d {
-			cur.hi = r
+		// constant run
+		e := r
+		for e+1 <= 0x10FFFF && delta(e+1) == d {
+			e++
+		}
+		if e > r {
+			segs = append(segs, caseSeg{lo: r, hi: e, delta: d, step: 1})
+			r = e + 1
 			continue
 		}
-		segs = append(segs, caseSeg{lo: r, hi: r, delta: d, step: 1})
-		cur = &segs[len(segs)-1]
+		// alternating run: r, r+2, r+4 ... shifted by d, the ones in between unchanged
+		e = r
+		for e+2 <= 0x10FFFF && delta(e+2) == d && delta(e+1) == 0 {
+			e += 2
+		}
+		segs = append(segs, caseSeg{lo: r, hi: e, delta: d, step: 2})
+		r = e + 1
 	}
 	return segs
 }
 
+var upperPre, lowerPre map[rune][]rune
+
 func init() {
 	upperSegs = buildCaseSegs(unicode.ToUpper)
 	lowerSegs = buildCaseSegs(unicode.ToLower)
+	upperPre, lowerPre = map[rune][]rune{}, map[rune][]rune{}
+	for r := rune(0); r <= 0x10FFFF; r++ {
+		if r >= 0xD800 && r <= 0xDFFF {
+			continue
+		}
+		if u := unicode.ToUpper(r); u != r {
+			upperPre[u] = append(upperPre[u], r)
+		}
+		if l := unicode.ToLower(r); l != r {
+			lowerPre[l] = append(lowerPre[l], r)
+		}
+	}
+	casePreimage = func(name string, k rune) ([]rune, bool) {
+		var pre map[rune][]rune
+		var f func(rune) rune
+		switch name {
+		case "go_toupper":
+			pre, f = upperPre, unicode.ToUpper
+		case "go_tolower":
+			pre, f = lowerPre, unicode.ToLower
+		default:
+			return nil, false
+		}
+		out := append([]rune{}, pre[k]...)
+		if f(k) == k {
+			out = append(out, k) // k maps to itself
+		}
+		return out, true
+	}
 }
 
 func caseDefineFun(name string, segs []caseSeg, asciiLo, asciiHi rune, asciiDelta int32) string {
@@ -230,6 +283,10 @@ func caseDefineFun(name string, segs []caseSeg, asciiLo, asciiHi rune, asciiDelt
 			cond = fmt.Sprintf("(= r %s)", bvLit(32, uint64(uint32(s.lo))))
 		} else {
 			cond = fmt.Sprintf("(and (bvule %s r) (bvule r %s))", bvLit(32, uint64(uint32(s.lo))), bvLit(32, uint64(uint32(s.hi))))
+			if s.step == 2 {
+				// every second code point, starting at lo
+				cond = fmt.Sprintf("(and %s (= ((_ extract 0 0) (bvsub r %s)) #b0))", cond, bvLit(32, uint64(uint32(s.lo))))
+			}
 		}
 		body = fmt.Sprintf("(ite %s (bvadd r %s) %s)", cond, bvLit(32, uint64(uint32(s.delta))), body)
 	}
